@@ -137,7 +137,7 @@ def gn_init(self, p, a, b, basis, order, entropy_f=os.urandom):
     Point.__init__(self, basis[0], basis[1], self)
     self._powers = []
     Gp = self
-    for _ in range(256):
+    for _ in range(max(256, order.bit_length())):
         self._powers.append(Gp)
         Gp += Gp
     assert p % 4 == 3, 'p % 4 must be 3 due to modular_sqrt optimization'
@@ -151,7 +151,7 @@ def gn_raw_mul(self, e):
     assert self._order is not None
     e %= self._order
     P = self._infinity
-    for bit in range(256):
+    for bit in range(len(self._powers)):
         a = [P, P + self._powers[bit]]
         P = a[e & 1]
         e >>= 1
